@@ -99,6 +99,6 @@ VH_OP(anim) {
     }
     return s;
   };
-  return "ok " + vh::hex(buf.data(), buf.size()) + " 0 0 | " + decode(false) + " | " + decode(true) + " | " +
+  return "ok " + vh::hex(buf.data(), buf.size()) + " 0 0 | " + decode(false) + " | " + decode(true) + " | - | " +
          vh::dump_geometry(&anim, nullptr) + " | " + vh::joinl(ids);
 }
